@@ -219,7 +219,7 @@ pub fn run(run: &mut Run) {
     crate::props::c02::common_assumptions(run);
     crate::props::c02::known_findings(run);
     run.assume("constructor cases back the table reference by a real page (mmap of the simulated frame at the recursive / near-recursive address); recursive and replacement indices come from the usable set [1,31] ∪ [65,160]; the address computation is checked for all 512 indices as a pure function through hook H3");
-    let n = run.cases(150_000, 10_000_000);
+    let n = run.cases(600_000, 24_000_000);
     run.sub(
         "address_computation",
         "hook H3 (p3/p2/p1 table pages): all 512 recursive indices (uniform) x canonical pages of the three sizes (edge-biased indices); oracle: sign-extension of r|r|r|p4, r|r|p4|p3, r|p4|p3|p2 shifted to 39/30/21/12; non-trivial = r >= 256 (sign extension); distinct by (r, p4, p3, p2)",
@@ -227,7 +227,7 @@ pub fn run(run: &mut Run) {
         (0u16..512, canon_va()),
         h3_case,
     );
-    let n = run.cases(20_000, 1_000_000);
+    let n = run.cases(100_000, 4_000_000);
     run.sub(
         "constructor",
         "RecursivePageTable::new on table addresses of the recursive form and near-recursive forms (1-4 of the four indices replaced) x CR3 = any frame + any low 12 bits x slot content in {points to the CR3 frame, same with arbitrary other flags, not present, other frame, other frame while another slot points to the CR3 frame, slot fine but CR3 holds another frame}; oracle: Ok iff the four indices are equal and that slot is present and holds the CR3 frame, NotRecursive / NotActive otherwise, only CR3 is read; after Ok a translate() reaches the level-3 table through the page r|r|r|p4 (observed fault address of the software MMU); non-trivial = near-recursive address or a slot content other than the plain correct one",
@@ -235,7 +235,7 @@ pub fn run(run: &mut Run) {
         ctor(),
         ctor_case,
     );
-    let n = run.cases(8_000, 400_000);
+    let n = run.cases(20_000, 800_000);
     let max_ops = if run.tier == crate::engine::Tier::Quick { 24 } else { 64 };
     run.sub(
         "recursive_accesses",
